@@ -10,6 +10,7 @@ func (c *Conversation) processDisconnectedTLV(t tlv, x dataMessageExtra) (toSend
 	c.msgState = finished
 	c.smp.wipe()
 	c.ake = nil
+	c.resend.clear()
 
 	c.keys = keyManagementContext{}
 
